@@ -11,12 +11,16 @@ MULTI = [97, 233, 8364, 119070, 98, 231]
 # 3 variable held as u128 (i128 when negative), 4 through `'n'|int`, 5 through `n.0|int` (small n), 6 variable held as u64
 FORMS = [0, 1, 2, 3, 4, 5, 6, 10, 11]   # +10: an omitted step is written with its colon (x[a:b:])
 # kinds 6..8: containers built in the template by concatenation: unsized lazy + list, list + unsized lazy, list|chain(lazy)
-KINDS = [(0, ASCII), (0, MULTI), (1, [0, 1, 127, 128, 255, 7]), (2, None), (3, None), (4, None), (5, None), (6, None), (7, None), (8, None)]
+KINDS = [(0, ASCII), (0, MULTI), (1, [0, 1, 127, 128, 255, 7]), (2, None), (3, None), (4, None), (5, None), (6, None), (7, None), (8, None),
+         (9, ASCII), (9, MULTI), (10, None), (11, ASCII), (11, MULTI), (12, MULTI)]
+# kinds 9/10: the container is a string / list LITERAL in the template source; 11: safe (heap) string; 12: Arc<str> (heap) string
 
 
 def elems(kind_row, n):
     k, pool = kind_row
-    return (pool[:n] if pool else list(range(10, 10 + n)))
+    if pool:
+        return [pool[i % len(pool)] for i in range(n)]
+    return list(range(10, 10 + n))
 
 
 def case(kind_row, n, mode, st, sp, se, form):
@@ -46,6 +50,16 @@ def gen(chk):
                         cases.append(case(kr, n, 0, st, sp, se, FORMS[f % len(FORMS)])); f += 1
             for key in list(range(-9, 10)) + B63:
                 cases.append(case(kr, n, 1, key, None, None, FORMS[f % len(FORMS)])); f += 1
+    # heap strings: longer than the 22-byte inline representation, multi-byte characters, every subscript and a
+    # slice sample (the inline/heap representations have separate code paths for subscripts)
+    for kr in [(0, MULTI), (0, ASCII), (11, MULTI), (12, MULTI), (9, MULTI)]:
+        for n in (7, 12, 23, 24, 30):
+            for key in range(-n - 2, n + 2):
+                cases.append(case(kr, n, 1, key, None, None, FORMS[f % len(FORMS)])); f += 1
+            for st in (None, -n - 1, -n, -3, -1, 0, 1, 5, n - 1, n, n + 1):
+                for sp in (None, -n, -2, 0, 3, n, n + 3):
+                    for se in (None, -2, -1, 1, 3):
+                        cases.append(case(kr, n, 0, st, sp, se, FORMS[f % len(FORMS)])); f += 1
     exhaustive_n = len(cases)
     # composed operations: a slice, then a subscript (mode 18+k, k in -7..7) or one of 8 second slices (mode 100+j)
     # of its result - the first slice's result is a lazy object for lists / iterables
@@ -81,7 +95,7 @@ def gen(chk):
 
 
 def describe(c):
-    kind = ["str", "bytes", "tuple", "list", "lazy(sized)", "lazy(unsized)", "lazy + list", "list + lazy", "list|chain(lazy)"][c[0]]
+    kind = ["str", "bytes", "tuple", "list", "lazy(sized)", "lazy(unsized)", "lazy + list", "list + lazy", "list|chain(lazy)", "str literal in source", "list literal in source", "safe str", "Arc<str>"][c[0]]
     def o(t, v): return "" if t == 0 else str(v)
     n = c[9]
     SECOND = ["[::-1]", "[1:]", "[:-1]", "[::2]", "[-2:]", "[1:-1]", "[-1::-1]", "[0:2]"]
